@@ -30,7 +30,8 @@ def main(tier, seed, prop=PROP, prop_bits=PROP_BITS):
     total_prop = total_corr = 0
     try:
         for name, cases in streams(tier, seed):
-            st = driver.run_stream(run, flat, cases, d, name, "flat_case", "flat_case_code", prop_bits)
+            st = driver.run_stream(run, flat, cases, d, name, "flat_case", "flat_case_code", prop_bits,
+                                   search=flat.threshold_search)
             total_prop += st["prop_fail"] + st["impl_errors"]
             total_corr += st["corr_fail"]
     except coqrun.CoqError as e:
